@@ -99,6 +99,14 @@ def gen_design(rng, max_wrappers=3):
                           "cond": rng.choice([None, None, rng.randrange(nctrl)])})
         if parts:
             design["regs"].append({"w": w, "init": rng.getrandbits(w), "reset_less": rng.random() < 0.25, "parts": parts})
+    for r in range(rng.choice([0, 0, 1, 2])):
+        # a four-state FSM placed in a domain with m.FSM(domain=...): its state register is a 2-bit counter
+        mod = rng.randrange(nmod)
+        dom = pick_dom(mod)
+        if dom is not None:
+            design["regs"].append({"w": 2, "init": rng.randrange(4), "reset_less": False, "fsm": True,
+                                   "parts": [{"lo": 0, "hi": 2, "mod": mod, "dom": dom, "kind": "inc",
+                                              "cond": rng.choice([None, rng.randrange(nctrl)])}]})
     if rng.random() < 0.4 or force is not None:
         mod = rng.randrange(nmod)
         dom = pick_dom(mod)
@@ -141,6 +149,21 @@ def build(design):
     b.din = Signal(8, name="din")
     b.regs = []
     for r, rg in enumerate(design["regs"]):
+        if rg.get("fsm"):
+            p = rg["parts"][0]
+            m = mods[p["mod"]]
+            enc = Signal(2, name=f"r{r}")          # the current state, decoded combinationally
+            b.regs.append(enc)
+            with m.FSM(domain=p["dom"], init=f"S{rg['init']}", name=f"fsm{r}"):
+                for k in range(4):
+                    with m.State(f"S{k}"):
+                        m.d.comb += enc.eq(k)
+                        if p["cond"] is None:
+                            m.next = f"S{(k + 1) % 4}"
+                        else:
+                            with m.If(b.ctrl[p["cond"]]):
+                                m.next = f"S{(k + 1) % 4}"
+            continue
         sig = Signal(rg["w"], name=f"r{r}", init=rg["init"], reset_less=rg["reset_less"])
         b.regs.append(sig)
         for p in rg["parts"]:
@@ -485,6 +508,68 @@ def enum_events(design):
     return letters
 
 
+def check_shared_source(rng, out):
+    """Several wrapped variants derived from ONE source object (a Module, or the Fragment obtained from it): each
+    variant obeys only its own control, the source itself stays unwrapped - also after the other variants have been
+    built and simulated."""
+    from amaranth.hdl import Module, Signal, ClockDomain, Fragment, ResetInserter, EnableInserter
+    from amaranth.sim import Simulator
+    init = rng.randrange(1, 15)
+    src = Module()
+    cd = ClockDomain("sync", reset_less=True)
+    r = Signal(4, init=init, name="r")
+    src.d.sync += r.eq(r + 1)
+    as_fragment = rng.random() < 0.6
+    source = Fragment.get(src, None) if as_fragment else src
+    ctrls = [Signal(name=f"c{k}") for k in range(3)]
+    kinds = [rng.choice(["reset", "enable"]) for _ in range(2)]
+    variants = [(ResetInserter if k == "reset" else EnableInserter)({"sync": c})(source) for k, c in zip(kinds, ctrls)]
+    which = rng.choice([0, 1, 0, 1, "source"])
+    dut = source if which == "source" else variants[which]
+    top = Module()
+    top.domains.sync = cd
+    top.submodules.dut = dut
+    cfg = {"kind": "variants-of-one-source", "source_is_fragment": as_fragment, "wrappers": kinds, "simulated": which, "init": init}
+    out["hist"]["shared-source:" + ("fragment" if as_fragment else "module") + ":" + str(which)] = \
+        out["hist"].get("shared-source:" + ("fragment" if as_fragment else "module") + ":" + str(which), 0) + 1
+    try:
+        sim = Simulator(top)
+    except Exception as ex:
+        if exc_origin(ex) != "repo":
+            raise
+        out["violations"].append({"mechanism": f"shared-source-exception:{type(ex).__name__}", "detail": dict(cfg, exception=repr(ex)[:300])})
+        return
+    bad = []
+
+    async def tb(ctx):
+        val = init
+        cv = [0, 0, 0]
+        for step in range(30):
+            if rng.random() < 0.4:
+                k = rng.randrange(3)
+                cv[k] = 1 - cv[k]
+                ctx.set(ctrls[k], cv[k])
+            else:
+                ctx.set(cd.clk, 1)
+                if which == "source":
+                    val = (val + 1) & 15
+                elif kinds[which] == "reset":
+                    val = init if cv[which] else (val + 1) & 15
+                else:
+                    val = (val + 1) & 15 if cv[which] else val
+                ctx.set(cd.clk, 0)
+            got = ctx.get(r)
+            out["evaluations"] += 1
+            if got != val:
+                bad.append(dict(step=step, controls=list(cv), register=got, expected=val))
+                return
+    sim.add_testbench(tb)
+    sim.run()
+    if bad:
+        out["violations"].append({"mechanism": "wrapped-variant-obeys-another-variants-control", "detail": dict(cfg, **bad[0])})
+    out["fps"].add(fp(cfg))
+
+
 def shards(tier, seed):
     n = 960 if tier == "quick" else 12000
     specs = [{"kind": "sample", "seed": seed, "shard": i, "designs": n // NSHARDS, "events": 50 if tier == "quick" else 100,
@@ -528,6 +613,7 @@ def run_shard(spec):
                 continue
             events = gen_events(design, rng, spec["events"])
             cosim(design, events, out)
+            check_shared_source(rng, out)
             nd = len(design["domains"])
             nw = sum(len(w) for w in design["wrappers"])
             out["hist"][f"domains:{nd}"] = out["hist"].get(f"domains:{nd}", 0) + 1
